@@ -242,7 +242,10 @@ def compare(step, v, info, tokmap, problems):
         if kind == "rand" and not c["nozero"]:
             bad("weights-not-random", role=role, param=c["name"])
         if kind == "mut" and c["allzero"]:
-            raise common.MachineryError("the harness's own mutation left an all-zero tensor")
+            # the harness never writes zeros: an all-zero tensor under a 'mut' token is either a value that
+            # was not carried over (already reported above as value-changed) or a harness bug
+            if not problems:
+                raise common.MachineryError("the harness's own mutation left an all-zero tensor")
 
 
 def replay(beh, seed):
